@@ -1,0 +1,8 @@
+//go:build !verif
+
+package cmpp
+
+import "github.com/valyala/bytebufferpool"
+
+// poisonOnRelease is a verification hook; without the verif build tag it does nothing.
+func poisonOnRelease(*bytebufferpool.ByteBuffer) {}
